@@ -418,6 +418,17 @@ func vf28Check(st *vfStats, t vfFataler, c *vf28Case) {
 	if payloadLen < 1 || payloadLen > len(prim.postPlain[0]) {
 		st.Violation(t, "%s: first record body %d bytes => payload %d (plaintext written %d)", desc, len(r0.Body), payloadLen, len(prim.postPlain[0]))
 	}
+	// Config.DynamicRecordSizingDisabled is documented as "the largest possible TLS record size is always used": the next
+	// record then carries min(len(written), 2^14) plaintext bytes, so that n up to the record size can be compared
+	if c.NoDynamic {
+		wantPayload := len(prim.postPlain[0])
+		if wantPayload > 1<<14 {
+			wantPayload = 1 << 14
+		}
+		if payloadLen != wantPayload {
+			st.Violation(t, "%s: with DynamicRecordSizingDisabled the record after the call carries %d plaintext bytes of a %d-byte write, want %d", desc, payloadLen, len(prim.postPlain[0]), wantPayload)
+		}
+	}
 	n := c.Ns[0]
 	cmp := n
 	if payloadLen < cmp {
